@@ -1,30 +1,46 @@
 #!/usr/bin/env python3
-"""Pretty-print a Mgr (C05/C06) case with implementation and model traces side by side."""
+"""Pretty-print a Mgr (C05/C06) case with implementation and model traces side by side.
+usage: mgr_decode.py cases impl model index"""
 import sys
+TR = {0: 'tcp', 1: 'ws'}
 def evs(c):
-    L=(c[0],c[1]); n=c[2]; i=3; out=[]
-    names={0:('DialPeer',2),1:('DialAddr',2),2:('AddAddr',1),3:('TrDialFailure',2),4:('TrOpened',2),5:('TrOpenFailure',2),6:('TrEstablished',4),7:('TrPendingInbound',1),8:('AcceptDone',2),9:('Closed',2),10:('AllocConn',0)}
+    L = (c[0], c[1], 'inst=%s' % [TR[t] for t in (0, 1) if c[2] & (1 << t)]); n = c[3]; i = 4; out = []
+    def trs(i):
+        k = c[i]; return [TR.get(t, t) for t in c[i+1:i+1+k]], i + 1 + k
+    def shape(i):
+        k = c[i]; return [tuple(c[i+1+2*j:i+3+2*j]) for j in range(k)], i + 1 + 2 * k
+    names = {1: ('DialAddr(p,t,fails)', 3), 2: ('AddAddr(p,t)', 2), 3: ('TrDialFailure(c,t,p)', 3), 4: ('TrOpened(c,t,negfails)', 3),
+             5: ('TrOpenFailure(c,t,p)', 3), 6: ('TrEstablished(p,c,t,listener,accfails)', 5), 7: ('TrPendingInbound(c,t)', 2),
+             8: ('AcceptDone(c,ok)', 2), 9: ('Closed(p,c)', 2), 10: ('AllocConn', 0)}
     for _ in range(n):
-        if c[i]==11:
-            k=c[i+1]; out.append('DialShape%s'%([tuple(c[i+2+2*j:i+4+2*j]) for j in range(k)],)); i+=2+2*k; continue
-        nm,k=names[c[i]]; out.append('%s%s'%(nm,tuple(c[i+1:i+1+k]))); i+=1+k
-    return L,out
+        t = c[i]
+        if t in (0, 12):
+            p = c[i+1]; ts, j = trs(i + 2); fl, j = trs(j)
+            out.append('%s(p=%d, ts=%s, open_fails=%s)' % ('DialPeer' if t == 0 else 'HandleDialPeer', p, ts, fl)); i = j
+        elif t in (11, 13):
+            a, j = shape(i + 1); out.append('%s%s' % ('DialShape' if t == 11 else 'HandleDialAddr', a)); i = j
+        else:
+            nm, k = names[t]; out.append('%s%s' % (nm, tuple(c[i+1:i+1+k]))); i += 1 + k
+    return L, out
 def steps(t):
-    i=1; res=[]
+    i = 1; res = []
     def lst(w):
         nonlocal i
-        n=t[i]; i+=1; r=[tuple(t[i+j*w:i+j*w+w]) for j in range(n)]; i+=n*w; return r
-    while i<len(t):
-        calls=lst(2); protos=lst(1); mevs=lst(3); ret=t[i]; stuck=t[i+1]; i+=2
-        states=lst(4); known=lst(1); pend=lst(2); ins=lst(1); outs=lst(1)
-        res.append('calls=%s protos=%s mevs=%s ret=%s stuck=%s | states=%s known=%s pend=%s ins=%s outs=%s'%(calls,[p[0] for p in protos],mevs,ret,stuck,states,[k[0] for k in known],pend,[x[0] for x in ins],[x[0] for x in outs]))
+        n = t[i]; i += 1; r = [tuple(t[i+j*w:i+j*w+w]) for j in range(n)]; i += n * w; return r
+    CN = {1: 'open', 2: 'dial', 3: 'negotiate', 4: 'cancel', 5: 'accept', 6: 'reject', 7: 'accept_pending', 8: 'reject_pending'}
+    while i < len(t):
+        calls = lst(3); protos = lst(1); mevs = lst(3); ret = t[i]; stuck = t[i+1]; i += 2
+        states = lst(4); known = lst(3); pend = lst(2); ins = lst(1); outs = lst(1); oe = lst(2)
+        res.append('calls=%s protos=%s mevs=%s ret=%s stuck=%s | states=%s known(p,#tcp,#ws)=%s pend=%s ins=%s outs=%s opening_errors=%s' % (
+            ['%s(%d)@%s' % (CN.get(k, k), c, TR.get(tr, tr)) for k, c, tr in calls], [p[0] for p in protos], mevs, ret, stuck,
+            states, known, pend, [x[0] for x in ins], [x[0] for x in outs], oe))
     return res
-cases=open(sys.argv[1]).read().splitlines(); a=open(sys.argv[2]).read().splitlines(); b=open(sys.argv[3]).read().splitlines()
-k=int(sys.argv[4])
-L,e=evs(list(map(int,cases[k].split())))
-sa=steps(list(map(int,a[k].split()))); sb=steps(list(map(int,b[k].split())))
-print('limits',L)
-for j,x in enumerate(e):
-    ia=sa[j] if j<len(sa) else '-'; ib=sb[j] if j<len(sb) else '-'
-    print(j,x); print('   impl ',ia); 
-    if ia!=ib: print('   MODEL',ib)
+cases = open(sys.argv[1]).read().splitlines(); a = open(sys.argv[2]).read().splitlines(); b = open(sys.argv[3]).read().splitlines()
+k = int(sys.argv[4])
+L, e = evs(list(map(int, cases[k].split())))
+sa = steps(list(map(int, a[k].split()))); sb = steps(list(map(int, b[k].split())))
+print('limits', L)
+for j, x in enumerate(e):
+    ia = sa[j] if j < len(sa) else '-'; ib = sb[j] if j < len(sb) else '-'
+    print(j, x); print('   impl ', ia)
+    if ia != ib: print('   MODEL', ib)
